@@ -590,6 +590,8 @@ class Interp:
         fn = self.libattr.get((type_tag(obj), name))
         if fn is not None:
             return fn(self, obj)
+        if obj is None:
+            raise PyRaise('AttributeError', f"'NoneType' object has no attribute '{name}'")
         raise Unsupported(f"attribute {name} of {type_tag(obj)} ({obj!r})")
 
     def setattr(self, obj, name, value):
